@@ -1,13 +1,22 @@
 //! A stand-in for the `rayon` crate inside the ragc simulator.
 //!
-//! ragc uses exactly: `slice.par_iter().map(f).collect::<Vec<_>>()`,
+//! ragc itself uses `slice.par_iter().map(f).collect::<Vec<_>>()`,
 //! `vec.into_par_iter().filter_map(f).collect::<Vec<_>>()`, `rayon::current_num_threads()` and
-//! `ThreadPoolBuilder::new().num_threads(n).build_global()`. Here a parallel map is executed by
-//! `pool` shuttle tasks (the caller plus `pool - 1` scoped helpers) that claim item indices from a
-//! shared atomic counter — every claim is a scheduling point of the simulator — and store each
-//! result in the slot of its index; `collect` reads the slots in index order, which is the
-//! contract of rayon's indexed collect. Which task computes which item, and in which order the
-//! closures run, is decided by the harness's scheduler and is therefore replayable.
+//! `ThreadPoolBuilder::new().num_threads(n).build_global()`; the shim covers the commonly used
+//! part of rayon's API beyond that (ranges, chunks, mutable iteration, the usual adaptors and
+//! consumers, `join`, `scope`, parallel sorts) so that a change to ragc which reaches for another
+//! rayon call still builds inside the simulator.
+//!
+//! Execution model: every stage that calls user code (`map`, `filter`, `filter_map`, `flat_map`,
+//! `for_each`, `join`, `scope` ...) runs its items on `pool` shuttle tasks — the caller plus
+//! `pool - 1` scoped helpers — that claim item indices from a shared atomic counter (every claim
+//! is a scheduling point of the simulator) and store each result in the slot of its index; the
+//! next stage reads the slots in index order, which is the contract of rayon's indexed
+//! iterators. Which task computes which item, and in which order the closures run, is decided by
+//! the harness's scheduler and is therefore replayable. Reductions (`sum`, `reduce`, `fold`,
+//! `min`, `max` ...) combine the per-item results in index order: one of the results rayon may
+//! produce for an associative operation. Outside a simulated execution, or with a pool of one,
+//! everything runs sequentially on the caller.
 
 use std::cell::Cell;
 use std::sync::atomic::{AtomicU64, Ordering as StdOrdering};
@@ -17,6 +26,8 @@ thread_local! {
     static POOL_OVERRIDE: Cell<usize> = const { Cell::new(0) };
     /// pool size requested through ThreadPoolBuilder::build_global (0 = not set)
     static POOL_GLOBAL: Cell<usize> = const { Cell::new(0) };
+    /// pool size of the innermost ThreadPool::install (0 = none)
+    static POOL_INSTALLED: Cell<usize> = const { Cell::new(0) };
 }
 
 /// statistics for the evidence files (process-wide, std atomics: no scheduling points)
@@ -42,6 +53,7 @@ pub mod verif {
     pub fn set_pool(n: usize) {
         super::POOL_OVERRIDE.with(|c| c.set(n));
         super::POOL_GLOBAL.with(|c| c.set(0));
+        super::POOL_INSTALLED.with(|c| c.set(0));
     }
     pub fn stats() -> (u64, u64, u64, u64) {
         use std::sync::atomic::Ordering::Relaxed;
@@ -55,6 +67,10 @@ pub mod verif {
 }
 
 pub fn current_num_threads() -> usize {
+    let i = POOL_INSTALLED.with(|c| c.get());
+    if i > 0 {
+        return i;
+    }
     let o = POOL_OVERRIDE.with(|c| c.get());
     if o > 0 {
         return o;
@@ -64,6 +80,14 @@ pub fn current_num_threads() -> usize {
         return g;
     }
     1
+}
+
+pub fn current_thread_index() -> Option<usize> {
+    None
+}
+
+pub fn max_num_threads() -> usize {
+    usize::MAX >> 8
 }
 
 #[derive(Debug)]
@@ -90,9 +114,43 @@ impl ThreadPoolBuilder {
         self.n = n;
         self
     }
+    pub fn thread_name<F: FnMut(usize) -> String + 'static>(self, _f: F) -> Self {
+        self
+    }
+    pub fn stack_size(self, _n: usize) -> Self {
+        self
+    }
     pub fn build_global(self) -> Result<(), ThreadPoolBuildError> {
         POOL_GLOBAL.with(|c| c.set(self.n));
         Ok(())
+    }
+    pub fn build(self) -> Result<ThreadPool, ThreadPoolBuildError> {
+        Ok(ThreadPool { n: if self.n == 0 { current_num_threads() } else { self.n } })
+    }
+}
+
+pub struct ThreadPool {
+    n: usize,
+}
+
+impl ThreadPool {
+    pub fn install<R: Send, F: FnOnce() -> R + Send>(&self, f: F) -> R {
+        let prev = POOL_INSTALLED.with(|c| c.replace(self.n));
+        let r = f();
+        POOL_INSTALLED.with(|c| c.set(prev));
+        r
+    }
+    pub fn current_num_threads(&self) -> usize {
+        self.n
+    }
+    pub fn join<A, B, RA, RB>(&self, a: A, b: B) -> (RA, RB)
+    where
+        A: FnOnce() -> RA + Send,
+        B: FnOnce() -> RB + Send,
+        RA: Send,
+        RB: Send,
+    {
+        self.install(|| join(a, b))
     }
 }
 
@@ -148,8 +206,73 @@ where
         .collect()
 }
 
+/// `rayon::join`: both closures run, possibly on two tasks.
+pub fn join<A, B, RA, RB>(a: A, b: B) -> (RA, RB)
+where
+    A: FnOnce() -> RA + Send,
+    B: FnOnce() -> RB + Send,
+    RA: Send,
+    RB: Send,
+{
+    if current_num_threads() <= 1 || !in_simulation() {
+        let ra = a();
+        let rb = b();
+        return (ra, rb);
+    }
+    probe("rayon_joins", 1);
+    let mut rb = None;
+    let ra = shuttle::thread::scope(|s| {
+        let h = s.spawn(b);
+        let ra = a();
+        rb = Some(h.join().expect("rayon::join: task panicked"));
+        ra
+    });
+    (ra, rb.unwrap())
+}
+
+/// `rayon::scope`: spawned closures run as tasks and are joined before `scope` returns.
+pub struct Scope<'scope> {
+    jobs: std::sync::Mutex<Vec<Box<dyn FnOnce(&Scope<'scope>) + Send + 'scope>>>,
+}
+
+impl<'scope> Scope<'scope> {
+    pub fn spawn<F: FnOnce(&Scope<'scope>) + Send + 'scope>(&self, f: F) {
+        self.jobs.lock().unwrap().push(Box::new(f));
+    }
+}
+
+pub fn scope<'scope, F, R>(f: F) -> R
+where
+    F: FnOnce(&Scope<'scope>) -> R,
+{
+    let s = Scope { jobs: std::sync::Mutex::new(Vec::new()) };
+    let r = f(&s);
+    // jobs may spawn further jobs: run in rounds, each round in parallel
+    loop {
+        let jobs: Vec<_> = std::mem::take(&mut *s.jobs.lock().unwrap());
+        if jobs.is_empty() {
+            break;
+        }
+        struct SendPtr<T>(*const T);
+        unsafe impl<T> Send for SendPtr<T> {}
+        unsafe impl<T> Sync for SendPtr<T> {}
+        let sp = SendPtr(&s as *const Scope<'scope>);
+        let spr = &sp;
+        run_indexed(jobs, &move |job: Box<dyn FnOnce(&Scope<'scope>) + Send + 'scope>| {
+            // SAFETY: `s` outlives this call; Scope only hands out &self
+            job(unsafe { &*spr.0 })
+        });
+    }
+    r
+}
+
+pub fn spawn<F: FnOnce() + Send + 'static>(f: F) {
+    f()
+}
+
 pub mod iter {
     use super::run_indexed;
+    use std::collections::{BTreeMap, BTreeSet, HashMap, HashSet};
 
     pub trait ParallelIterator: Sized {
         type Item: Send;
@@ -163,7 +286,30 @@ pub mod iter {
         {
             Map { base: self, f }
         }
-
+        fn map_with<T, F, U>(self, init: T, f: F) -> Done<U>
+        where
+            T: Send + Clone,
+            F: Fn(&mut T, Self::Item) -> U + Sync + Send,
+            U: Send,
+        {
+            let mut t = init;
+            Done { items: self.drive().into_iter().map(|x| f(&mut t, x)).collect() }
+        }
+        fn map_init<I, T, F, U>(self, init: I, f: F) -> Done<U>
+        where
+            I: Fn() -> T + Sync + Send,
+            F: Fn(&mut T, Self::Item) -> U + Sync + Send,
+            U: Send,
+        {
+            let mut t = init();
+            Done { items: self.drive().into_iter().map(|x| f(&mut t, x)).collect() }
+        }
+        fn filter<F>(self, f: F) -> Filter<Self, F>
+        where
+            F: Fn(&Self::Item) -> bool + Sync + Send,
+        {
+            Filter { base: self, f }
+        }
         fn filter_map<F, U>(self, f: F) -> FilterMap<Self, F>
         where
             F: Fn(Self::Item) -> Option<U> + Sync + Send,
@@ -171,22 +317,286 @@ pub mod iter {
         {
             FilterMap { base: self, f }
         }
+        fn flat_map<F, PI>(self, f: F) -> Done<PI::Item>
+        where
+            F: Fn(Self::Item) -> PI + Sync + Send,
+            PI: IntoParallelIterator,
+            PI::Item: Send,
+        {
+            let parts: Vec<Vec<PI::Item>> = run_indexed(self.drive(), &|x| f(x).into_par_iter().drive());
+            Done { items: parts.into_iter().flatten().collect() }
+        }
+        fn flat_map_iter<F, SI>(self, f: F) -> Done<SI::Item>
+        where
+            F: Fn(Self::Item) -> SI + Sync + Send,
+            SI: IntoIterator,
+            SI::Item: Send,
+        {
+            let parts: Vec<Vec<SI::Item>> = run_indexed(self.drive(), &|x| f(x).into_iter().collect());
+            Done { items: parts.into_iter().flatten().collect() }
+        }
+        fn flatten(self) -> Done<<Self::Item as IntoParallelIterator>::Item>
+        where
+            Self::Item: IntoParallelIterator,
+        {
+            Done { items: self.drive().into_iter().flat_map(|x| x.into_par_iter().drive()).collect() }
+        }
+        fn flatten_iter(self) -> Done<<Self::Item as IntoIterator>::Item>
+        where
+            Self::Item: IntoIterator,
+            <Self::Item as IntoIterator>::Item: Send,
+        {
+            Done { items: self.drive().into_iter().flatten().collect() }
+        }
+        fn inspect<F>(self, f: F) -> Done<Self::Item>
+        where
+            F: Fn(&Self::Item) + Sync + Send,
+        {
+            Done {
+                items: run_indexed(self.drive(), &|x| {
+                    f(&x);
+                    x
+                }),
+            }
+        }
+        fn enumerate(self) -> Done<(usize, Self::Item)> {
+            Done { items: self.drive().into_iter().enumerate().collect() }
+        }
+        fn zip<Z>(self, other: Z) -> Done<(Self::Item, Z::Item)>
+        where
+            Z: IntoParallelIterator,
+        {
+            Done { items: self.drive().into_iter().zip(other.into_par_iter().drive()).collect() }
+        }
+        fn chain<C>(self, other: C) -> Done<Self::Item>
+        where
+            C: IntoParallelIterator<Item = Self::Item>,
+        {
+            let mut v = self.drive();
+            v.extend(other.into_par_iter().drive());
+            Done { items: v }
+        }
+        fn cloned<'a, T>(self) -> Done<T>
+        where
+            T: 'a + Clone + Send + Sync,
+            Self: ParallelIterator<Item = &'a T>,
+        {
+            Done { items: self.drive().into_iter().cloned().collect() }
+        }
+        fn copied<'a, T>(self) -> Done<T>
+        where
+            T: 'a + Copy + Send + Sync,
+            Self: ParallelIterator<Item = &'a T>,
+        {
+            Done { items: self.drive().into_iter().copied().collect() }
+        }
+        fn rev(self) -> Done<Self::Item> {
+            let mut v = self.drive();
+            v.reverse();
+            Done { items: v }
+        }
+        fn skip(self, n: usize) -> Done<Self::Item> {
+            Done { items: self.drive().into_iter().skip(n).collect() }
+        }
+        fn take(self, n: usize) -> Done<Self::Item> {
+            Done { items: self.drive().into_iter().take(n).collect() }
+        }
+        fn step_by(self, n: usize) -> Done<Self::Item> {
+            Done { items: self.drive().into_iter().step_by(n).collect() }
+        }
+        fn chunks(self, n: usize) -> Done<Vec<Self::Item>> {
+            let mut out = Vec::new();
+            let mut cur = Vec::new();
+            for x in self.drive() {
+                cur.push(x);
+                if cur.len() == n {
+                    out.push(std::mem::take(&mut cur));
+                }
+            }
+            if !cur.is_empty() {
+                out.push(cur);
+            }
+            Done { items: out }
+        }
+        fn with_min_len(self, _n: usize) -> Self {
+            self
+        }
+        fn with_max_len(self, _n: usize) -> Self {
+            self
+        }
+        fn fold<T, ID, F>(self, identity: ID, f: F) -> Done<T>
+        where
+            T: Send,
+            ID: Fn() -> T + Sync + Send,
+            F: Fn(T, Self::Item) -> T + Sync + Send,
+        {
+            Done { items: vec![self.drive().into_iter().fold(identity(), f)] }
+        }
+        fn fold_with<T, F>(self, init: T, f: F) -> Done<T>
+        where
+            T: Send + Clone,
+            F: Fn(T, Self::Item) -> T + Sync + Send,
+        {
+            Done { items: vec![self.drive().into_iter().fold(init, f)] }
+        }
 
+        // ---- consumers
+        fn for_each<F>(self, f: F)
+        where
+            F: Fn(Self::Item) + Sync + Send,
+        {
+            run_indexed(self.drive(), &|x| f(x));
+        }
+        fn for_each_with<T, F>(self, init: T, f: F)
+        where
+            T: Send + Clone,
+            F: Fn(&mut T, Self::Item) + Sync + Send,
+        {
+            let mut t = init;
+            for x in self.drive() {
+                f(&mut t, x);
+            }
+        }
+        fn try_for_each<F, E>(self, f: F) -> Result<(), E>
+        where
+            F: Fn(Self::Item) -> Result<(), E> + Sync + Send,
+            E: Send,
+        {
+            for r in run_indexed(self.drive(), &|x| f(x)) {
+                r?;
+            }
+            Ok(())
+        }
         fn collect<C: FromIterator<Self::Item>>(self) -> C {
             self.drive().into_iter().collect()
         }
+        fn collect_into_vec(self, target: &mut Vec<Self::Item>) {
+            *target = self.drive();
+        }
+        fn unzip<A, B, FA, FB>(self) -> (FA, FB)
+        where
+            Self: ParallelIterator<Item = (A, B)>,
+            FA: Default + Extend<A>,
+            FB: Default + Extend<B>,
+            A: Send,
+            B: Send,
+        {
+            self.drive().into_iter().unzip()
+        }
+        fn partition<A, B, P>(self, p: P) -> (A, B)
+        where
+            A: Default + Extend<Self::Item>,
+            B: Default + Extend<Self::Item>,
+            P: Fn(&Self::Item) -> bool + Sync + Send,
+        {
+            let (mut a, mut b) = (A::default(), B::default());
+            for x in self.drive() {
+                if p(&x) {
+                    a.extend(std::iter::once(x));
+                } else {
+                    b.extend(std::iter::once(x));
+                }
+            }
+            (a, b)
+        }
+        fn count(self) -> usize {
+            self.drive().len()
+        }
+        fn sum<S>(self) -> S
+        where
+            S: Send + std::iter::Sum<Self::Item>,
+        {
+            self.drive().into_iter().sum()
+        }
+        fn product<P>(self) -> P
+        where
+            P: Send + std::iter::Product<Self::Item>,
+        {
+            self.drive().into_iter().product()
+        }
+        fn reduce<ID, OP>(self, identity: ID, op: OP) -> Self::Item
+        where
+            ID: Fn() -> Self::Item + Sync + Send,
+            OP: Fn(Self::Item, Self::Item) -> Self::Item + Sync + Send,
+        {
+            self.drive().into_iter().fold(identity(), op)
+        }
+        fn reduce_with<OP>(self, op: OP) -> Option<Self::Item>
+        where
+            OP: Fn(Self::Item, Self::Item) -> Self::Item + Sync + Send,
+        {
+            self.drive().into_iter().reduce(op)
+        }
+        fn min(self) -> Option<Self::Item>
+        where
+            Self::Item: Ord,
+        {
+            self.drive().into_iter().min()
+        }
+        fn max(self) -> Option<Self::Item>
+        where
+            Self::Item: Ord,
+        {
+            self.drive().into_iter().max()
+        }
+        fn min_by_key<K: Ord + Send, F: Fn(&Self::Item) -> K + Sync + Send>(self, f: F) -> Option<Self::Item> {
+            self.drive().into_iter().min_by_key(f)
+        }
+        fn max_by_key<K: Ord + Send, F: Fn(&Self::Item) -> K + Sync + Send>(self, f: F) -> Option<Self::Item> {
+            self.drive().into_iter().max_by_key(f)
+        }
+        fn min_by<F: Fn(&Self::Item, &Self::Item) -> std::cmp::Ordering + Sync + Send>(self, f: F) -> Option<Self::Item> {
+            self.drive().into_iter().min_by(f)
+        }
+        fn max_by<F: Fn(&Self::Item, &Self::Item) -> std::cmp::Ordering + Sync + Send>(self, f: F) -> Option<Self::Item> {
+            self.drive().into_iter().max_by(f)
+        }
+        fn any<P: Fn(Self::Item) -> bool + Sync + Send>(self, p: P) -> bool {
+            run_indexed(self.drive(), &|x| p(x)).into_iter().any(|b| b)
+        }
+        fn all<P: Fn(Self::Item) -> bool + Sync + Send>(self, p: P) -> bool {
+            run_indexed(self.drive(), &|x| p(x)).into_iter().all(|b| b)
+        }
+        fn find_any<P: Fn(&Self::Item) -> bool + Sync + Send>(self, p: P) -> Option<Self::Item> {
+            self.drive().into_iter().find(|x| p(x))
+        }
+        fn find_first<P: Fn(&Self::Item) -> bool + Sync + Send>(self, p: P) -> Option<Self::Item> {
+            self.drive().into_iter().find(|x| p(x))
+        }
+        fn find_last<P: Fn(&Self::Item) -> bool + Sync + Send>(self, p: P) -> Option<Self::Item> {
+            self.drive().into_iter().rev().find(|x| p(x))
+        }
+        fn position_any<P: Fn(Self::Item) -> bool + Sync + Send>(self, p: P) -> Option<usize> {
+            self.drive().into_iter().position(p)
+        }
+        fn position_first<P: Fn(Self::Item) -> bool + Sync + Send>(self, p: P) -> Option<usize> {
+            self.drive().into_iter().position(p)
+        }
+        fn len(&self) -> usize
+        where
+            Self: Clone,
+        {
+            self.clone().drive().len()
+        }
     }
 
-    pub struct VecIter<T> {
+    /// rayon distinguishes indexed iterators; here every iterator is materialised in order
+    pub trait IndexedParallelIterator: ParallelIterator {}
+    impl<P: ParallelIterator> IndexedParallelIterator for P {}
+
+    /// a materialised stage
+    pub struct Done<T> {
         items: Vec<T>,
     }
 
-    impl<T: Send> ParallelIterator for VecIter<T> {
+    impl<T: Send> ParallelIterator for Done<T> {
         type Item = T;
         fn drive(self) -> Vec<T> {
             self.items
         }
     }
+
+    pub type VecIter<T> = Done<T>;
 
     pub struct Map<I, F> {
         base: I,
@@ -202,6 +612,23 @@ pub mod iter {
         type Item = U;
         fn drive(self) -> Vec<U> {
             run_indexed(self.base.drive(), &self.f)
+        }
+    }
+
+    pub struct Filter<I, F> {
+        base: I,
+        f: F,
+    }
+
+    impl<I, F> ParallelIterator for Filter<I, F>
+    where
+        I: ParallelIterator,
+        F: Fn(&I::Item) -> bool + Sync + Send,
+    {
+        type Item = I::Item;
+        fn drive(self) -> Vec<I::Item> {
+            let f = &self.f;
+            run_indexed(self.base.drive(), &|x| if f(&x) { Some(x) } else { None }).into_iter().flatten().collect()
         }
     }
 
@@ -228,37 +655,395 @@ pub mod iter {
         fn into_par_iter(self) -> Self::Iter;
     }
 
-    impl<T: Send> IntoParallelIterator for Vec<T> {
+    impl<T: Send> IntoParallelIterator for Done<T> {
         type Item = T;
-        type Iter = VecIter<T>;
-        fn into_par_iter(self) -> VecIter<T> {
-            VecIter { items: self }
+        type Iter = Done<T>;
+        fn into_par_iter(self) -> Done<T> {
+            self
         }
     }
 
+    impl<I, F, U> IntoParallelIterator for Map<I, F>
+    where
+        I: ParallelIterator,
+        F: Fn(I::Item) -> U + Sync + Send,
+        U: Send,
+    {
+        type Item = U;
+        type Iter = Self;
+        fn into_par_iter(self) -> Self {
+            self
+        }
+    }
+
+    impl<T: Send> IntoParallelIterator for Vec<T> {
+        type Item = T;
+        type Iter = Done<T>;
+        fn into_par_iter(self) -> Done<T> {
+            Done { items: self }
+        }
+    }
+
+    impl<T: Send> IntoParallelIterator for Option<T> {
+        type Item = T;
+        type Iter = Done<T>;
+        fn into_par_iter(self) -> Done<T> {
+            Done { items: self.into_iter().collect() }
+        }
+    }
+
+    impl<'a, T: Sync + 'a> IntoParallelIterator for &'a Vec<T> {
+        type Item = &'a T;
+        type Iter = Done<&'a T>;
+        fn into_par_iter(self) -> Done<&'a T> {
+            Done { items: self.iter().collect() }
+        }
+    }
+
+    impl<'a, T: Sync + 'a> IntoParallelIterator for &'a [T] {
+        type Item = &'a T;
+        type Iter = Done<&'a T>;
+        fn into_par_iter(self) -> Done<&'a T> {
+            Done { items: self.iter().collect() }
+        }
+    }
+
+    impl<'a, T: Send + 'a> IntoParallelIterator for &'a mut Vec<T> {
+        type Item = &'a mut T;
+        type Iter = Done<&'a mut T>;
+        fn into_par_iter(self) -> Done<&'a mut T> {
+            Done { items: self.iter_mut().collect() }
+        }
+    }
+
+    impl<'a, T: Send + 'a> IntoParallelIterator for &'a mut [T] {
+        type Item = &'a mut T;
+        type Iter = Done<&'a mut T>;
+        fn into_par_iter(self) -> Done<&'a mut T> {
+            Done { items: self.iter_mut().collect() }
+        }
+    }
+
+    macro_rules! range_impl {
+        ($($t:ty),*) => {$(
+            impl IntoParallelIterator for std::ops::Range<$t> {
+                type Item = $t;
+                type Iter = Done<$t>;
+                fn into_par_iter(self) -> Done<$t> {
+                    Done { items: self.collect() }
+                }
+            }
+            impl IntoParallelIterator for std::ops::RangeInclusive<$t> {
+                type Item = $t;
+                type Iter = Done<$t>;
+                fn into_par_iter(self) -> Done<$t> {
+                    Done { items: self.collect() }
+                }
+            }
+        )*};
+    }
+    range_impl!(u8, u16, u32, u64, usize, i8, i16, i32, i64, isize);
+
+    macro_rules! coll_impl {
+        ($($c:ident),*) => {$(
+            impl<T: Send> IntoParallelIterator for $c<T> {
+                type Item = T;
+                type Iter = Done<T>;
+                fn into_par_iter(self) -> Done<T> {
+                    Done { items: self.into_iter().collect() }
+                }
+            }
+            impl<'a, T: Sync + 'a> IntoParallelIterator for &'a $c<T> {
+                type Item = &'a T;
+                type Iter = Done<&'a T>;
+                fn into_par_iter(self) -> Done<&'a T> {
+                    Done { items: self.iter().collect() }
+                }
+            }
+        )*};
+    }
+    coll_impl!(BTreeSet);
+
+    impl<T: Send, S> IntoParallelIterator for HashSet<T, S> {
+        type Item = T;
+        type Iter = Done<T>;
+        fn into_par_iter(self) -> Done<T> {
+            Done { items: self.into_iter().collect() }
+        }
+    }
+    impl<'a, T: Sync + 'a, S> IntoParallelIterator for &'a HashSet<T, S> {
+        type Item = &'a T;
+        type Iter = Done<&'a T>;
+        fn into_par_iter(self) -> Done<&'a T> {
+            Done { items: self.iter().collect() }
+        }
+    }
+    impl<K: Send, V: Send, S> IntoParallelIterator for HashMap<K, V, S> {
+        type Item = (K, V);
+        type Iter = Done<(K, V)>;
+        fn into_par_iter(self) -> Done<(K, V)> {
+            Done { items: self.into_iter().collect() }
+        }
+    }
+    impl<'a, K: Sync + 'a, V: Sync + 'a, S> IntoParallelIterator for &'a HashMap<K, V, S> {
+        type Item = (&'a K, &'a V);
+        type Iter = Done<(&'a K, &'a V)>;
+        fn into_par_iter(self) -> Done<(&'a K, &'a V)> {
+            Done { items: self.iter().collect() }
+        }
+    }
+    impl<'a, K: Sync + 'a, V: Send + 'a, S> IntoParallelIterator for &'a mut HashMap<K, V, S> {
+        type Item = (&'a K, &'a mut V);
+        type Iter = Done<(&'a K, &'a mut V)>;
+        fn into_par_iter(self) -> Done<(&'a K, &'a mut V)> {
+            Done { items: self.iter_mut().collect() }
+        }
+    }
+    impl<K: Send, V: Send> IntoParallelIterator for BTreeMap<K, V> {
+        type Item = (K, V);
+        type Iter = Done<(K, V)>;
+        fn into_par_iter(self) -> Done<(K, V)> {
+            Done { items: self.into_iter().collect() }
+        }
+    }
+    impl<'a, K: Sync + 'a, V: Sync + 'a> IntoParallelIterator for &'a BTreeMap<K, V> {
+        type Item = (&'a K, &'a V);
+        type Iter = Done<(&'a K, &'a V)>;
+        fn into_par_iter(self) -> Done<(&'a K, &'a V)> {
+            Done { items: self.iter().collect() }
+        }
+    }
+    impl<'a, K: Sync + 'a, V: Send + 'a> IntoParallelIterator for &'a mut BTreeMap<K, V> {
+        type Item = (&'a K, &'a mut V);
+        type Iter = Done<(&'a K, &'a mut V)>;
+        fn into_par_iter(self) -> Done<(&'a K, &'a mut V)> {
+            Done { items: self.iter_mut().collect() }
+        }
+    }
+
+    /// `.par_iter()` for everything whose shared reference is parallel-iterable (as in rayon)
     pub trait IntoParallelRefIterator<'a> {
         type Item: Send + 'a;
         type Iter: ParallelIterator<Item = Self::Item>;
         fn par_iter(&'a self) -> Self::Iter;
     }
 
-    impl<'a, T: Sync + 'a> IntoParallelRefIterator<'a> for [T] {
-        type Item = &'a T;
-        type Iter = VecIter<&'a T>;
-        fn par_iter(&'a self) -> VecIter<&'a T> {
-            VecIter { items: self.iter().collect() }
+    impl<'a, I: 'a + ?Sized> IntoParallelRefIterator<'a> for I
+    where
+        &'a I: IntoParallelIterator,
+    {
+        type Item = <&'a I as IntoParallelIterator>::Item;
+        type Iter = <&'a I as IntoParallelIterator>::Iter;
+        fn par_iter(&'a self) -> Self::Iter {
+            self.into_par_iter()
         }
     }
 
-    impl<'a, T: Sync + 'a> IntoParallelRefIterator<'a> for Vec<T> {
-        type Item = &'a T;
-        type Iter = VecIter<&'a T>;
-        fn par_iter(&'a self) -> VecIter<&'a T> {
-            VecIter { items: self.iter().collect() }
+    pub trait IntoParallelRefMutIterator<'a> {
+        type Item: Send + 'a;
+        type Iter: ParallelIterator<Item = Self::Item>;
+        fn par_iter_mut(&'a mut self) -> Self::Iter;
+    }
+
+    impl<'a, I: 'a + ?Sized> IntoParallelRefMutIterator<'a> for I
+    where
+        &'a mut I: IntoParallelIterator,
+    {
+        type Item = <&'a mut I as IntoParallelIterator>::Item;
+        type Iter = <&'a mut I as IntoParallelIterator>::Iter;
+        fn par_iter_mut(&'a mut self) -> Self::Iter {
+            self.into_par_iter()
+        }
+    }
+
+    /// rayon's `collect` target trait; here every `FromIterator` collection qualifies
+    pub trait FromParallelIterator<T: Send>: FromIterator<T> {}
+    impl<T: Send, C: FromIterator<T>> FromParallelIterator<T> for C {}
+
+    pub trait ParallelExtend<T: Send> {
+        fn par_extend<I: IntoParallelIterator<Item = T>>(&mut self, it: I);
+    }
+    impl<T: Send, C: Extend<T>> ParallelExtend<T> for C {
+        fn par_extend<I: IntoParallelIterator<Item = T>>(&mut self, it: I) {
+            self.extend(it.into_par_iter().drive());
+        }
+    }
+
+    pub trait ParallelBridge: Sized + Iterator {
+        fn par_bridge(self) -> Done<Self::Item>
+        where
+            Self::Item: Send,
+        {
+            Done { items: self.collect() }
+        }
+    }
+    impl<I: Iterator> ParallelBridge for I {}
+}
+
+pub mod slice {
+    use super::iter::{IntoParallelIterator, VecIter};
+
+    pub trait ParallelSlice<T: Sync> {
+        fn as_parallel_slice(&self) -> &[T];
+        fn par_chunks(&self, n: usize) -> VecIter<&[T]> {
+            self.as_parallel_slice().chunks(n).collect::<Vec<_>>().into_par_iter()
+        }
+        fn par_chunks_exact(&self, n: usize) -> VecIter<&[T]> {
+            self.as_parallel_slice().chunks_exact(n).collect::<Vec<_>>().into_par_iter()
+        }
+        fn par_windows(&self, n: usize) -> VecIter<&[T]> {
+            self.as_parallel_slice().windows(n).collect::<Vec<_>>().into_par_iter()
+        }
+        fn par_split<P: Fn(&T) -> bool + Sync + Send>(&self, p: P) -> VecIter<&[T]> {
+            self.as_parallel_slice().split(p).collect::<Vec<_>>().into_par_iter()
+        }
+    }
+    impl<T: Sync> ParallelSlice<T> for [T] {
+        fn as_parallel_slice(&self) -> &[T] {
+            self
+        }
+    }
+
+    pub trait ParallelSliceMut<T: Send> {
+        fn as_parallel_slice_mut(&mut self) -> &mut [T];
+        fn par_chunks_mut(&mut self, n: usize) -> VecIter<&mut [T]> {
+            self.as_parallel_slice_mut().chunks_mut(n).collect::<Vec<_>>().into_par_iter()
+        }
+        fn par_chunks_exact_mut(&mut self, n: usize) -> VecIter<&mut [T]> {
+            self.as_parallel_slice_mut().chunks_exact_mut(n).collect::<Vec<_>>().into_par_iter()
+        }
+        fn par_sort(&mut self)
+        where
+            T: Ord,
+        {
+            self.as_parallel_slice_mut().sort()
+        }
+        fn par_sort_by<F: Fn(&T, &T) -> std::cmp::Ordering + Sync>(&mut self, f: F) {
+            self.as_parallel_slice_mut().sort_by(f)
+        }
+        fn par_sort_by_key<K: Ord, F: Fn(&T) -> K + Sync>(&mut self, f: F) {
+            self.as_parallel_slice_mut().sort_by_key(f)
+        }
+        fn par_sort_by_cached_key<K: Ord + Send, F: Fn(&T) -> K + Sync>(&mut self, f: F) {
+            self.as_parallel_slice_mut().sort_by_cached_key(f)
+        }
+        fn par_sort_unstable(&mut self)
+        where
+            T: Ord,
+        {
+            self.as_parallel_slice_mut().sort_unstable()
+        }
+        fn par_sort_unstable_by<F: Fn(&T, &T) -> std::cmp::Ordering + Sync>(&mut self, f: F) {
+            self.as_parallel_slice_mut().sort_unstable_by(f)
+        }
+        fn par_sort_unstable_by_key<K: Ord, F: Fn(&T) -> K + Sync>(&mut self, f: F) {
+            self.as_parallel_slice_mut().sort_unstable_by_key(f)
+        }
+    }
+    impl<T: Send> ParallelSliceMut<T> for [T] {
+        fn as_parallel_slice_mut(&mut self) -> &mut [T] {
+            self
+        }
+    }
+}
+
+pub mod str {
+    use super::iter::{IntoParallelIterator, VecIter};
+
+    pub trait ParallelString {
+        fn as_parallel_string(&self) -> &str;
+        fn par_chars(&self) -> VecIter<char> {
+            self.as_parallel_string().chars().collect::<Vec<_>>().into_par_iter()
+        }
+        fn par_bytes(&self) -> VecIter<u8> {
+            self.as_parallel_string().bytes().collect::<Vec<_>>().into_par_iter()
+        }
+        fn par_lines(&self) -> VecIter<&str> {
+            self.as_parallel_string().lines().collect::<Vec<_>>().into_par_iter()
+        }
+        fn par_split_whitespace(&self) -> VecIter<&str> {
+            self.as_parallel_string().split_whitespace().collect::<Vec<_>>().into_par_iter()
+        }
+    }
+    impl ParallelString for str {
+        fn as_parallel_string(&self) -> &str {
+            self
         }
     }
 }
 
 pub mod prelude {
-    pub use crate::iter::{IntoParallelIterator, IntoParallelRefIterator, ParallelIterator};
+    pub use crate::iter::{
+        FromParallelIterator, IndexedParallelIterator, IntoParallelIterator, IntoParallelRefIterator, IntoParallelRefMutIterator, ParallelBridge,
+        ParallelExtend, ParallelIterator,
+    };
+    pub use crate::slice::{ParallelSlice, ParallelSliceMut};
+    pub use crate::str::ParallelString;
+}
+
+#[cfg(test)]
+mod tests {
+    use super::prelude::*;
+    use std::collections::HashMap;
+
+    // outside a simulated execution everything runs sequentially; the tests pin the API surface
+    // and the ordering contract
+    #[test]
+    fn api_surface() {
+        let v: Vec<u32> = (0..100u32).into_par_iter().map(|x| x * 2).collect();
+        assert_eq!(v[7], 14);
+        let s: u64 = v.par_iter().map(|&x| x as u64).sum();
+        assert_eq!(s, 9900);
+        let mut w = vec![1u8; 10];
+        w.par_iter_mut().for_each(|x| *x += 1);
+        assert!(w.iter().all(|&x| x == 2));
+        let c: Vec<usize> = v.par_chunks(7).map(|c| c.len()).collect();
+        assert_eq!(c.len(), 15);
+        w.par_chunks_mut(3).enumerate().for_each(|(i, c)| c[0] = i as u8);
+        assert_eq!(w[3], 1);
+        let f: Vec<u32> = v.par_iter().filter(|&&x| x % 4 == 0).cloned().collect();
+        assert_eq!(f.len(), 50);
+        let fm: Vec<u32> = v.clone().into_par_iter().filter_map(|x| if x > 190 { Some(x) } else { None }).collect();
+        assert_eq!(fm, vec![192, 194, 196, 198]);
+        let fl: Vec<u32> = (0..3u32).into_par_iter().flat_map(|x| vec![x; x as usize]).collect();
+        assert_eq!(fl, vec![1, 2, 2]);
+        let fi: Vec<u32> = (0..3u32).into_par_iter().flat_map_iter(|x| 0..x).collect();
+        assert_eq!(fi, vec![0, 0, 1]);
+        let z: Vec<(u32, u8)> = v.par_iter().copied().zip(w.par_iter().copied()).collect();
+        assert_eq!(z.len(), 10);
+        assert_eq!(v.par_iter().max(), Some(&198));
+        assert_eq!(v.par_iter().copied().reduce(|| 0, |a, b| a.max(b)), 198);
+        assert!(v.par_iter().any(|&x| x == 198) && v.par_iter().all(|&x| x < 199));
+        let m: HashMap<u32, u32> = v.par_iter().map(|&x| (x, x + 1)).collect();
+        assert_eq!(m[&4], 5);
+        let n = m.par_iter().filter(|(k, _)| **k < 10).count();
+        assert_eq!(n, 5);
+        let (a, b) = super::join(|| 1, || 2);
+        assert_eq!((a, b), (1, 2));
+        let hits = std::sync::atomic::AtomicUsize::new(0);
+        super::scope(|s| {
+            for _ in 0..4 {
+                s.spawn(|s2| {
+                    hits.fetch_add(1, std::sync::atomic::Ordering::SeqCst);
+                    s2.spawn(|_| {
+                        hits.fetch_add(1, std::sync::atomic::Ordering::SeqCst);
+                    });
+                });
+            }
+        });
+        assert_eq!(hits.into_inner(), 8);
+        let mut u = vec![3, 1, 2];
+        u.par_sort_unstable();
+        assert_eq!(u, vec![1, 2, 3]);
+        let pool = super::ThreadPoolBuilder::new().num_threads(3).build().unwrap();
+        assert_eq!(pool.install(super::current_num_threads), 3);
+        let folded: Vec<u32> = (1..=4u32).into_par_iter().fold(|| 0, |a, b| a + b).collect();
+        assert_eq!(folded.iter().sum::<u32>(), 10);
+        let mut ext = vec![0u32];
+        ext.par_extend(vec![1u32, 2]);
+        assert_eq!(ext, vec![0, 1, 2]);
+        let b: Vec<u32> = (0..5u32).par_bridge().map(|x| x + 1).collect();
+        assert_eq!(b.len(), 5);
+        assert_eq!("a b".par_split_whitespace().count(), 2);
+    }
 }
